@@ -108,7 +108,7 @@ def main(argv=None):
     open_known = [e for e in known if e.get('status') == 'open']
     open_sigs = sorted({e['signature'] for e in open_known})
 
-    need_c = any('c' in (hs[n].tiers.get(tier) or hs[n].tiers.get('quick') or {}).get('impls', hs[n].impls) for n in names) or any(
+    need_c = any(getattr(hs[n], 'needs_c', False) for n in names) or any('c' in (hs[n].tiers.get(tier) or hs[n].tiers.get('quick') or {}).get('impls', hs[n].impls) for n in names) or any(
         e.get('witness', {}).get('impl') == 'c' for e in open_known)
     scratch = None
     results = {}
